@@ -489,3 +489,89 @@ Theorem C01_static_no_throw_on_ranked_dag vs cs (rk : nat -> nat) :
              forall c, (c < length cs)%nat -> 0 <= slack_val (base s') c.
 Proof. exact (static_no_throw_on_ranked_dag vs cs rk). Qed.
 Print Assumptions C01_static_no_throw_on_ranked_dag.
+
+(* ---- Solver::refine / Solver::solve of the static solver (Vpsc/StaticRefine.v).  `static_refine_returns_on_dag` is NOT
+   closed; what is proved:
+   (1) refine's closing scan cannot throw from a state with every slack >= 0, and exhausting maxtries = 100 is a normal
+       return: solve() on a DAG returns Ok with every slack >= 0 EXACTLY, given only that every pass of refine's while
+       loop on the trace returns with every slack >= 0 (`passes_ok`; satisfy itself is unconditional);
+   (2) the geometry of Blocks::mergeRight: the invariant I2 (constraints with both / neither end in the current block hold;
+       its in-constraints hold; slack(in) + slack(out) >= 0 for every in/out pair) is kept by a merge across a most
+       violated out-constraint and gives slack >= 0 everywhere at loop exit;
+   (3) mergeRight as a whole returns with every slack >= 0, given that findMinOutConstraint's root is a most violated
+       out-constraint at every tested state (`mr_roots_ok` = bit 32 of Vpsc/StaticRefB.v, evaluated on every DAG run).
+   Missing (hence _partial): out-heap order (discharges mr_roots_ok), the mergeLeft half of Blocks::split (pair
+   invariant J under a merge with the not-yet-optimal right half), Block::split / findMinLM forest facts.
+   FINDING for the proof plan (not a defect): the naive invariants "mergeLeft(l) leaves every constraint satisfied" and
+   "nothing moves right in mergeLeft / left in mergeRight" are FALSE on reachable DAG states (StaticRefB bits 4, 8, 256);
+   I2 / J (bits 1024, 2048) hold on every visited state. *)
+From Adapt Require Import Vpsc.StaticRefine Vpsc.StaticRefineEx.
+
+Theorem C01_static_refine_scan_cannot_throw s :
+  all_sat0 (base s) -> sfinal_scan s = Ok s.
+Proof. exact (sfinal_scan_all_sat s). Qed.
+Print Assumptions C01_static_refine_scan_cannot_throw.
+
+Theorem C01_static_refine_returns_partial s :
+  all_sat0 (base s) -> passes_ok MAXTRIES s ->
+  exists s', static_refine s = Ok s' /\ all_sat0 (base s').
+Proof. exact (static_refine_returns_given_passes s). Qed.
+Print Assumptions C01_static_refine_returns_partial.
+
+Theorem C01_static_solve_no_throw_on_dag_partial vs cs :
+  wf_vars vs -> wf_cons vs cs -> dag_orderb (init vs cs) = true ->
+  (forall s1, static_satisfy (static_init vs cs) = Ok s1 -> passes_ok MAXTRIES s1) ->
+  exists s', static_solve (static_init vs cs) = Ok s' /\
+             forall c, (c < length cs)%nat -> 0 <= slack_val (base s') c.
+Proof. exact (static_solve_returns_given_passes vs cs). Qed.
+Print Assumptions C01_static_solve_no_throw_on_dag_partial.
+
+(* non-vacuity: a DAG on which refine really splits; every hypothesis holds *)
+Example C01_static_solve_no_throw_on_dag_partial_example :
+  wf_vars rx_vs /\ wf_cons rx_vs rx_cs /\ dag_orderb (init rx_vs rx_cs) = true /\
+  (forall s1, static_satisfy (static_init rx_vs rx_cs) = Ok s1 -> passes_ok MAXTRIES s1) /\
+  (exists s1 s2, static_satisfy (static_init rx_vs rx_cs) = Ok s1 /\ refine_pass s1 = Ok (s2, true)).
+Proof. exact static_solve_returns_given_passes_example. Qed.
+
+Theorem C01_static_merge_right_step_geometry b N c0 (sw : bool) d :
+  book b -> act_inv b -> wf_vars (svars b) -> all_blk_ok b -> geo2 b N ->
+  (c0 < length (scons b))%nat ->
+  blk_of b (cl (con_of b c0)) = N -> blk_of b (cr (con_of b c0)) <> N -> slack_val b c0 < 0 ->
+  (forall o, (o < length (scons b))%nat -> blk_of b (cl (con_of b o)) = N -> blk_of b (cr (con_of b o)) <> N ->
+     slack_val b c0 <= slack_val b o \/ 0 <= slack_val b o) ->
+  let Z := blk_of b (cr (con_of b c0)) in
+  d == (if sw then - mdist b c0 else mdist b c0) ->
+  let b' := merge_into b (if sw then N else Z) (if sw then Z else N) c0 d in
+  geo2 b' (if sw then N else Z) /\ all_blk_ok b' /\ book b' /\ act_inv b' /\ wf_vars (svars b') /\
+  scons b' = scons b /\ svars b' = svars b.
+Proof. exact (geo2_step b N c0 sw d). Qed.
+Print Assumptions C01_static_merge_right_step_geometry.
+
+Theorem C01_static_merge_right_entry b b' N rho :
+  book b -> wf_vars (svars b) -> all_sat0 b ->
+  scons b' = scons b -> svars b' = svars b ->
+  (forall u, (u < length (svars b))%nat -> blk_of b' u = blk_of b u) ->
+  0 <= rho ->
+  (forall u, (u < length (svars b))%nat -> blk_of b u = N -> Yof b' u == Yof b u + rho) ->
+  (forall u, (u < length (svars b))%nat -> blk_of b u <> N -> Yof b' u == Yof b u) ->
+  geo2 b' N.
+Proof. exact (geo2_entry_move b b' N rho). Qed.
+Print Assumptions C01_static_merge_right_entry.
+
+Theorem C01_static_merge_right_all_sat_partial s l s' :
+  MRI (base s) l ->
+  (forall s1 c, find_min_out (set_up_heap false s l) l = Ok (s1, c) -> mr_roots_ok (loop_fuel s) s1 l c) ->
+  merge_right s l = Ok s' ->
+  all_sat0 (base s') /\ book (base s') /\ act_inv (base s') /\ all_blk_ok (base s') /\
+  scons (base s') = scons (base s) /\ svars (base s') = svars (base s).
+Proof. exact (merge_right_all_sat s l s'). Qed.
+Print Assumptions C01_static_merge_right_all_sat_partial.
+
+(* non-vacuity: a violated out-constraint, one merge; every hypothesis holds and mergeRight returns *)
+Example C01_static_merge_right_all_sat_partial_example :
+  MRI (base (static_init mx_vs mx_cs)) 0 /\
+  (forall s1 c, find_min_out (set_up_heap false (static_init mx_vs mx_cs) 0) 0 = Ok (s1, c) ->
+                mr_roots_ok (loop_fuel (static_init mx_vs mx_cs)) s1 0 c) /\
+  (exists s', merge_right (static_init mx_vs mx_cs) 0 = Ok s') /\
+  slack_val (base (static_init mx_vs mx_cs)) 0 < 0.
+Proof. exact merge_right_all_sat_example. Qed.
